@@ -60,7 +60,7 @@ def case_stream(ctx):
         pr = mspec.Probes()
         yield ('witness:' + cls, mk(pr), pr, [(ws, p)])
     # same-shaped within-word expressions with different accepting sets: always, with all their queries
-    for st, pr, qs in mspec.shape_family() + mspec.greedy_family():
+    for st, pr, qs in mspec.shape_family() + mspec.greedy_family() + mspec.descr_family():
         yield ('targeted', [mspec.normalize_stmt(x) for x in st], pr, list(qs))
     # the targeted family: the pairs of item kinds: a seed-determined third in the quick tier, all otherwise; the others always
     pairs, others = mspec.targeted_family()
@@ -384,6 +384,8 @@ CLASS_OF = {'piece_boundary': 'within_word_accepts_at_piece_boundary', 'last_wor
 def run(ctx, res):
     with build.Lock():
         exe = build.harness()
+    from . import e2e
+    e2e.capstone_obligations(res, 'C01_')      # from the grammar TEXT: Props/Capstone.v C01_compile_bash_meaning
     if ctx.get('replay'):
         replay_file(exe, ctx['replay'], res)
         res.rule = 'replay of one recorded case'
